@@ -14,7 +14,8 @@ def kind_by_id(spec):
 
 
 def build(spec, with_graph=True, stale_prebind=True):
-    verts = [I.Vertex(v["id"], I.mk_pose(v["kind"], v["pose"]), bool(v.get("fixed", False))) for v in spec["vertices"]]
+    # fixed flags arrive as truthy non-bool values (numpy.bool_ from a mask, the integer 1): legal, and often what callers have
+    verts = [I.Vertex(v["id"], I.mk_pose(v["kind"], v["pose"]), (np.bool_(True) if k % 2 == 0 else 1) if v.get("fixed", False) else False) for k, v in enumerate(spec["vertices"])]
     kb = kind_by_id(spec)
     edges = []
     for e in spec["edges"]:
